@@ -18,13 +18,16 @@ ASSUMPTIONS = [
     "refuted (C13_roots_insufficient_refuted = known finding C13-roots-insufficient); the block-level statement is a Definition",
 ]
 WITNESS = os.path.join(vlib.ROOT, "corpus", "C13-roots-insufficient.trace")
+# the history behind C13_after_reset_served_nonvacuous (Proofs/ResetWitnessDeliv.v): a reset node that delivers two more blocks
+AFTER_RESET_EXAMPLE = os.path.join(vlib.ROOT, "corpus", "C13-after-reset-example.trace")
 
-def replay_witness(ctx):
-    """Replay the minimised history behind C13_roots_insufficient_refuted on the real cores and on the model."""
-    if not os.path.exists(WITNESS):
+def replay_witness(ctx, path=WITNESS):
+    """Replay a recorded history (by default the minimised one behind C13_roots_insufficient_refuted) on the real cores
+    and on the model."""
+    if not os.path.exists(path):
         return None
     script, n = None, 0
-    for l in open(WITNESS):
+    for l in open(path):
         if l.startswith("# SCRIPT "):
             script = l[len("# SCRIPT "):].strip()
         elif l.startswith("N "):
@@ -102,6 +105,20 @@ def run(ctx):
         if not any("round-differs-after-reset" in v for v in w["vlines"]):
             ctx["notes"].append("the recorded witness of C13_roots_insufficient_refuted no longer diverges on this tree "
                                 "(the Coq refutation is about the model of the pinned code)")
+    # the non-vacuity example of the after-reset theorems: same replay, no divergence and no model difference expected
+    x = replay_witness(ctx, AFTER_RESET_EXAMPLE)
+    if x is not None:
+        cov["after_reset_example_replay"] = dict(script=x["script"], validators=x["n"], resets=x["resets"], model_cases=x["cases"],
+                                                 model_diffs=len(x["diffs"]), oracle=[v[:300] for v in x["vlines"]][:3])
+        cov["evaluations"] = cov.get("evaluations", 0) + x["cases"]
+        if x["rc"] != 0 or not x["runner_ok"]:
+            findings.append(dict(cls="harness-crash", key="resetwit example replay rc=%s %s" % (x["rc"], x["err"][:200]), detail=x["err"]))
+        for d in x["diffs"][:5]:
+            diffs.append("after-reset-example " + d)
+        for v in x["vlines"][:5]:
+            m = re.search(r"^V (\S+) (\S+) (.*)$", v)
+            if m and m.group(1) == "C13":
+                findings.append(dict(cls=m.group(2), key=m.group(3)[:200], detail="after-reset-example " + v))
     # resets of validators that already had a history (the sim's joiners are fresh)
     e = nonfresh_resets(ctx)
     cov["nonfresh_reset_scripts"] = dict(scripts=e["scripts"], resets=e["resets"], model_cases=e["cases"], model_diffs=len(e["diffs"]),
